@@ -608,6 +608,88 @@ fn run(ctx: &mut Ctx) {
             }
         }
     }
+    // modules among tags of every other kind: what other tags say (memory sizes, memory maps, load addresses) has no
+    // bearing on which module tags the iterator yields
+    ctx.bound("modules_among_kinds", "regions [K][module][K][module][K][end] and [module][K][module][end] for every specified kind K (realistic sample; basic memory info also with 0 / 1 MiB / 64 MiB upper memory, memory maps covering 1 MiB / 128 MiB) x module ranges {1..2 MiB, 16..17 MiB, 3.9 GiB..4 GiB-1, 0..0, end below start}: tags() and module_tags() against the reference walk");
+    {
+        let mut others: Vec<(String, Vec<u8>)> = vec![];
+        for k in 1..=21u32 {
+            if k != bi::MODULE {
+                others.push((bi::kind_name(k).to_string(), bi::sample(k, 1, 2)));
+            }
+        }
+        for upper in [0u32, 1024, 65536] {
+            others.push((format!("MemInfo upper {} KiB", upper), bi::enc_meminfo(640, upper)));
+        }
+        for top in [0x10_0000u64, 0x800_0000] {
+            others.push((format!("Mmap up to {:#x}", top), bi::enc_mmap(24, 0, &[(0, 0x9_FC00, 1, 0), (0x10_0000, top - 0x10_0000, 1, 0)])));
+        }
+        let ranges: [(u32, u32); 5] = [(0x10_0000, 0x20_0000), (0x100_0000, 0x110_0000), (0xF800_0000, 0xFFFF_FFFF), (0, 0), (0x20_0000, 0x10_0000)];
+        for (name, k) in &others {
+            for r in 0..5usize {
+                for shape in 0..2 {
+                    let m1 = bi::enc_module(ranges[r].0, ranges[r].1, b"first\0");
+                    let m2 = bi::enc_module(ranges[(r + 1) % 5].0, ranges[(r + 1) % 5].1, b"second module\0");
+                    let seq: Vec<&Vec<u8>> = if shape == 0 { vec![k, &m1, k, &m2, k] } else { vec![&m1, k, &m2] };
+                    let mut pl: Vec<u8> = vec![];
+                    for t in seq {
+                        pl.extend_from_slice(t);
+                        while pl.len() % 8 != 0 {
+                            pl.push(0);
+                        }
+                    }
+                    pl.extend_from_slice(&[0, 0, 0, 0, 8, 0, 0, 0]);
+                    ctx.leaf(
+                        || J::obj().set("body", "modules-among-kinds").set("other_kind", name.as_str()).set("module_range", r).set("shape", shape).set("payload", J::hex(&pl)),
+                        |ctx| exec_region(ctx, &big, &pl, true),
+                    );
+                }
+            }
+        }
+    }
+    // giant regions: offsets beyond 2^31 (a sparse 4 GiB arena; only the pages holding tag headers are touched)
+    ctx.bound("giant_regions", "regions of 2 GiB - 8, 2 GiB, 2 GiB + 8, 2 GiB + 16, 3 GiB and 4 GiB - 8 bytes made of [16-byte tag][one giant tag][module tag][end tag] (physically present, sparsely backed): tags() and module_tags() yield the four / the one tag at their offsets");
+    {
+        let sparse = Arena::new_sparse((1usize << 32) / arena::PAGE + 1);
+        for total in [(2usize << 30) - 8, 2 << 30, (2 << 30) + 8, (2 << 30) + 16, 3 << 30, (4usize << 30) - 8] {
+            let describe = || J::obj().set("body", "giant-region").set("total_size", total);
+            ctx.leaf(describe, |ctx| {
+                ctx.state_direct();
+                ctx.nontrivial();
+                let p = unsafe { sparse.end().sub(total) };
+                let w = |off: usize, words: &[u32]| {
+                    let s: &mut [u8] = unsafe { std::slice::from_raw_parts_mut(p.add(off), 4 * words.len()) };
+                    for (i, v) in words.iter().enumerate() {
+                        wr32(s, 4 * i, *v);
+                    }
+                };
+                let giant = total - 8 - 16 - 24 - 8;
+                w(0, &[total as u32, 0]);
+                w(8, &[1, 13, 0x6162_6364, 0x65]);
+                w(24, &[0x1337, giant as u32]);
+                w(24 + giant, &[3, 20, 0x10_0000, 0x20_0000, 0x6D6F_64, 0]);
+                w(total - 8, &[0, 8]);
+                let want = vec![(8usize, 1u32, 13u32), (24, 0x1337, giant as u32), (24 + giant, 3, 20), (total - 8, 0, 8)];
+                let r = ctx.call("load+tags", || unsafe { BootInformation::load(p as *const BootInformationHeader) }.map(|b| {
+                    let t: Vec<(usize, u32, u32)> = b.tags().take(8).map(|t| (t as *const _ as *const u8 as usize - p as usize, u32::from(t.header().typ), t.header().size)).collect();
+                    let m: Vec<usize> = b.module_tags().take(8).map(|m| m as *const _ as *const u8 as usize - p as usize).collect();
+                    (t, m, b.total_size(), b.end_address() - b.start_address())
+                }));
+                match r {
+                    Out::Val(Ok((t, m, ts, span))) => {
+                        ctx.ob("giant.tags", t.len() as u64);
+                        if t != want || m != vec![24 + giant] || ts != total || span != total {
+                            ctx.violation("c03/giant/walk", || format!("region of {} bytes: tags() yields (offset, type, size) {:?}, module_tags() {:?}, total_size {}, end - start {}; expected {:?} and the module at {}", total, t, m, ts, span, want, 24 + giant));
+                        } else {
+                            ctx.class("giant:walked");
+                        }
+                    }
+                    Out::Val(Err(e)) => ctx.violation("c03/load-refused", || format!("load refused a well-formed region of {} bytes: {:?}", total, e)),
+                    Out::Panic => ctx.violation("c03/giant/panic", || format!("load / tags() / module_tags() panicked on a well-formed region of {} bytes", total)),
+                }
+            });
+        }
+    }
     // long regions: counters of 13, 16 and 17 bits
     let counts: Vec<usize> = if quick { vec![8191, 8192, 65535, 65536, 65541] } else { vec![4095, 4096, 8191, 8192, 8193, 32768, 65535, 65536, 65537, 65541, 131072, 131077] };
     ctx.bound("long_regions", format!("regions of N minimal (8-byte) custom tags + end tag for N in {:?}; regions of 64 KiB, 512 KiB, 1 MiB, 1 MiB + 24 / + 32, 3 MiB and 16 MiB made of one large tag, one 16-byte tag and the end tag; same seams and oracle", counts));
